@@ -903,8 +903,10 @@ try:
         calls={"ufo2ft.fontInfoData:intListToNum": "ufo2ft.fontInfoData:intListToNum#0+16"},
         runtime=Runtime(lambda rng, n: [dict(d, flavor="otf" if k % 2 else "ttf") for k, d in enumerate(_fbb_cases(rng, n))], _fbb_build, call=lambda fn, a: fn(a["self"])),
     )
-except Exception:  # noqa: BLE001
-    pass
+except Exception as _e:  # noqa: BLE001
+    import sys as _sys
+
+    print(f"warning: contracts/c04.py: setupTable_head#c04 not registered (contracts/c16.py unavailable: {_e!r})", file=_sys.stderr)
 
 
 # =====================================================================================================
